@@ -6,6 +6,8 @@ import Mkdb.Proofs.RefineStmt
 import Mkdb.Proofs.RefineStmtB
 import Mkdb.Proofs.CreateCat
 import Mkdb.Proofs.SpecRefine
+import Mkdb.Proofs.SpecRefineB
+import Mkdb.Model.Session
 /-!
 # C01 — table contents always equal what the statement history implies
 
@@ -430,5 +432,69 @@ theorem C01_update_refines_plain_model (db : Engine.DB) (pt sch : Levels) (tbls 
       AbsV db'.store pt sch (setTable tbls table t') sdb' ∧
       db'.store.hdr.lastKey = db.store.hdr.lastKey :=
   evalUpdate_refines_specV db pt sch tbls sdb sdb' h table sets w hvalid hspec
+
+end Mkdb.Store
+
+namespace Mkdb.Store
+open Mkdb.Tree Mkdb.Page Mkdb.Tuple Mkdb.Generated
+
+/-- **C01.every_statement_refines_plain_model** (end to end, one theorem over parsed statements):
+`Rel` ties the engine model to the plain in-memory model - the store abstracts table by table to the
+plain database (`AbsV`), `sys_schema` holds no rows under names without a table (`NoStale`), the page
+cache agrees with the file where it is clean (`MemFiled`).  Whenever the plain model accepts a
+statement - CREATE TABLE, multi-row INSERT, UPDATE, DELETE with any WHERE; every other statement kind
+changes no database - the engine model succeeds and `Rel` holds again with the plain model's result.
+`StmtRoom` is the side condition a Go program meets: literals that fit their Go types, 64-level fuel,
+offsets below 2^63, CREATE TABLE catalog rows within the cell size (otherwise refused, C14). -/
+theorem C01_every_statement_refines_plain_model (db : Engine.DB) (order : List Nat) (pt sch : Levels)
+    (tbls : List (Bytes × Levels)) (sdb sdb' : Spec.SDB) (h : Rel db pt sch tbls sdb) (st : Sql.Stmt)
+    (hroom : StmtRoom db pt sch tbls st) (hspec : Spec.specStmt sdb st = some sdb') :
+    ∃ db' pt' sch' tbls', evalStmt db order st = .ok () db' ∧ Rel db' pt' sch' tbls' sdb' :=
+  evalStmt_refines_spec db order pt sch tbls sdb sdb' h st hroom hspec
+
+/-- **C01.create_table_refines_plain_model**: CREATE TABLE the plain model accepts - the new catalog is
+the old tables (clean) plus an empty tree at the old allocation frontier, the row-id counter advanced
+by one per catalog row, no dirty page left, header on disk equal to the one in memory. -/
+theorem C01_create_table_refines_plain_model (db : Engine.DB) (pt sch : Levels) (tbls : List (Bytes × Levels))
+    (sdb sdb' : Spec.SDB) (h : AbsV db.store pt sch tbls sdb) (hns : NoStale sch tbls) (hmf : MemFiled db.store)
+    (name : Bytes) (cols : List Sql.ColDef) (order : List Nat)
+    (hspec : Spec.specCreate sdb name cols = some sdb')
+    (hlo : ∀ c ∈ cols, ∀ k, c.ty = .varchar k → -2147483648 ≤ k)
+    (hchk : checkCatalogRows (cols.map Engine.colTypeToField) name = none)
+    (hpd : pt.inner.length + 3 ≤ treeFuel) (hpl : pt.leaves.length + 1 ≤ scanFuel)
+    (hsd : sch.inner.length + cols.length + 2 ≤ treeFuel) (hsl : sch.leaves.length + cols.length ≤ scanFuel)
+    (hbig : db.store.hdr.nextFree + 262144 * cols.length + 262144 ≤ 9223372036854775807) :
+    ∃ db' pt' sch',
+      Engine.evalCreateTable db name cols order true = .ok () db' ∧ db'.wal = db.wal ∧
+      AbsV db'.store pt' sch'
+        ((tbls.map fun e => (e.1, clean e.2)) ++ [(name, clean (emptyTree db.store.hdr.nextFree))]) sdb' ∧
+      NoStale sch'
+        ((tbls.map fun e => (e.1, clean e.2)) ++ [(name, clean (emptyTree db.store.hdr.nextFree))]) ∧
+      MemFiled db'.store ∧ db'.store.dhdr = db'.store.hdr ∧ (∀ p ∈ db'.store.mem, p.2.dirty = false) ∧
+      db'.store.hdr.lastKey = db.store.hdr.lastKey + 1 + cols.length :=
+  evalCreateTable_refines_specV db pt sch tbls sdb sdb' h hns hmf name cols order hspec hlo hchk hpd hpl hsd hsl hbig
+
+/-- the statement dispatcher of the theorems above is the one of the session model (`Session.exec`,
+compared with `Session.ExecQuery` by the sess harness): on the four kinds it runs `evalStmt` on the
+selected database -/
+theorem C01_session_runs_evalStmt (s : Session.Sess) (st : Sql.Stmt)
+    (hk : (∃ n c, st = .createTable n c) ∨ (∃ t c r, st = .insert t c r) ∨ (∃ t a w, st = .update t a w) ∨
+      (∃ t w, st = .delete t w)) :
+    Session.exec s st = Session.onCurrent s fun db => evalStmt db [] st := by
+  have hv : ∀ {α} (f : Engine.DB → Engine.Res α),
+      Session.onCurrent s f = Session.onCurrent s fun db => voidRes (f db) := by
+    intro α f
+    unfold Session.onCurrent
+    split
+    · rfl
+    · split
+      · rfl
+      · rename_i db _
+        cases hf : f db <;> simp [voidRes, hf]
+  rcases hk with ⟨n, c, rfl⟩ | ⟨t, c, r, rfl⟩ | ⟨t, a, w, rfl⟩ | ⟨t, w, rfl⟩
+  · rfl
+  · exact hv _
+  · rfl
+  · exact hv _
 
 end Mkdb.Store
